@@ -218,6 +218,14 @@ def fixed_worlds():
     gamma = [(1, Call('snap', b'gamma')), (1, Call('snap', b''))]
     worlds = [render('c03-cr-earlier', dict(cfgs=[cfg_line(1, 'snaps')], flags={'cr-value'}, upd='', nest={}, crlf=None,
                                            execs=[(b'TestAlpha', [(1, Call('snap', http))]), (b'TestBeta', beta), (b'TestGamma', gamma), (b'TestBeta', beta), (b'TestGamma', gamma)]))]
+    # an execution of a test in which EVERY call is rejected before the snapshot stage (invalid document), then the same
+    # test executed again with good input (-count=N, a flaky producer): the ordinals start at 1 again
+    for kind, bad, good in (('yaml', b'a: [1, 2', b'a: [1, 2]\n'), ('json', b'{"a":', b'{"a": 1}')):
+        for nbad in (1, 2):
+            badx = (b'TestFlaky', [(1, Call(kind, bad, 's'))] * nbad)
+            goodx = (b'TestFlaky', [(1, Call(kind, good, 's')), (1, Call('snap', b'second slot'))])
+            worlds.append(render('c03-allfail-%s-%d' % (kind, nbad), dict(cfgs=[cfg_line(1, 'snaps')], flags=set(), upd='', nest={}, crlf=None,
+                                 execs=[(b'TestOther', [(1, Call('snap', b'other'))]), badx, goodx, badx, goodx])))
     for k, mode in enumerate(['all', 'odd', 'even']):
         for upd in ('', 'true'):
             worlds.append(render('c03-crlf-%s-%s' % (mode, upd or 'unset'), dict(cfgs=[cfg_line(1, 'snaps')], flags={'crlf-file'}, upd=upd, nest={}, crlf=(mode, 3),
